@@ -62,3 +62,6 @@ pub use timestamp::{
     DATACAKE_EPOCH,
     TIMESTAMP_MAX,
 };
+
+#[cfg(datacake_verif)]
+pub use timestamp::verif;
